@@ -1,12 +1,23 @@
+from flamapy.core.exceptions import FlamaException
 from flamapy.core.transformations import ModelToText
 
-from flamapy.core.models.ast import Node
+from flamapy.core.models.ast import Node, ASTOperation
 from flamapy.metamodels.fm_metamodel.models import (
     Feature,
     FeatureModel,
     Relation,
     Attribute
 )
+
+
+# The logical operators of the AFM grammar.
+AFM_OPERATORS = {ASTOperation.AND: 'AND',
+                 ASTOperation.OR: 'OR',
+                 ASTOperation.NOT: 'NOT',
+                 ASTOperation.IMPLIES: 'IMPLIES',
+                 ASTOperation.EQUIVALENCE: 'IFF',
+                 ASTOperation.REQUIRES: 'REQUIRES',
+                 ASTOperation.EXCLUDES: 'EXCLUDES'}
 
 
 class AFMWriter(ModelToText):
@@ -117,24 +128,23 @@ class AFMWriter(ModelToText):
         for constraint in constraints:
             ast = constraint.ast
             root = ast.root
-            result += self.recursive_constraint_read(root).strip() + ";\n"
+            result += self.recursive_constraint_read(root) + ";\n"
 
         return result
 
     def recursive_constraint_read(self, node: Node) -> str:
+        if node.is_term():
+            return str(node.data)
+        if node.data not in AFM_OPERATORS:
+            raise FlamaException(f"AFM has no operator for {node.data.value}.")
+        operator = AFM_OPERATORS[node.data]
+        if node.data == ASTOperation.NOT:
+            return operator + " " + self._constraint_operand(node.left)
+        return (self._constraint_operand(node.left) + " " + operator + " "
+                + self._constraint_operand(node.right))
 
-        data = node.data
-        if node.is_op():
-            data = data.value.upper()
-
-        if node.left and node.right:
-            result = self.recursive_constraint_read(
-                node.left) + data + self.recursive_constraint_read(node.right)
-        elif not node.left and node.right:
-            result = data + self.recursive_constraint_read(node.right)
-        elif node.left and not node.right:
-            result = self.recursive_constraint_read(node.left) + node.data
-        else:
-            result = " " + data + " "
-
-        return result
+    def _constraint_operand(self, node: Node) -> str:
+        """An operand of an operator: every compound operand goes in parentheses (the grammar
+        has its own precedences and does not accept a bare NOT as right operand)."""
+        result = self.recursive_constraint_read(node)
+        return f"({result})" if node.is_op() else result
